@@ -21,6 +21,31 @@ M1, M2 = "", ""
 LOC = "netconan/default_pwd_regexes.py / sensitive_item_removal.py"
 
 
+_WS_OTHER = None
+
+
+def collapse_ws(n):
+    """The patterns run on lines rebuilt as ' '.join(line.split()): no white-space character other than a single blank occurs,
+    so every character set loses the other white-space characters (the class of white space and a blank are then the same set)."""
+    global _WS_OTHER
+    if _WS_OTHER is None:
+        t, _ = rx.parse(r"\s", 0)
+        ws = [x for x in rx.walk(t) if x[0] == "set"][0][1]
+        _WS_OTHER = ws - CharSet.of(" ")
+    t = n[0]
+    if t == "set":
+        return ("set", n[1] - _WS_OTHER)
+    if t in ("cat", "alt"):
+        return (t, tuple(collapse_ws(x) for x in n[1]))
+    if t == "rep":
+        return ("rep", collapse_ws(n[1]), n[2], n[3], n[4])
+    if t == "group":
+        return ("group", n[1], n[2], collapse_ws(n[3]))
+    if t == "look":
+        return ("look", n[1], n[2], collapse_ws(n[3]))
+    return n
+
+
 class _Marks:
     def __init__(self):
         self.table = {}
@@ -52,7 +77,7 @@ def _replace_looks(n, marks):
 def marked(text, idx, prefix_text, ptree, marks):
     """AST of the marked language of one pattern."""
     tree, info = rx.parse(prefix_text + text, 0)
-    tree = rx.drop_vacuous(tree)
+    tree = collapse_ws(rx.drop_vacuous(tree))
     pat = pwdtable.Pat(text, idx, 0, 0, "ref")
     pat.tree, pat.info = tree, info
     if idx is None:
@@ -70,6 +95,30 @@ def marked(text, idx, prefix_text, ptree, marks):
     return rx.cat(lead, rx.lit(M2), pre, rx.lit(M1), sec, trail)
 
 
+def _all_markings(L, alpha):
+    """{u M2 v M1 w : uvw in L}: every way of marking a line of L (deterministic product of L with a 3-phase counter)."""
+    a2 = [i for i, a in enumerate(alpha.atoms) if M2 in a]
+    a1 = [i for i, a in enumerate(alpha.atoms) if M1 in a]
+    if len(a2) != 1 or len(a1) != 1 or alpha.atoms[a2[0]].size() != 1 or alpha.atoms[a1[0]].size() != 1:
+        raise RxError("mark symbols are not atoms of the alphabet")
+    a2, a1 = a2[0], a1[0]
+    n = len(L.trans)
+    trans = []
+    for ph in range(3):
+        for q in range(n):
+            row = [None] * alpha.n
+            for a in range(alpha.n):
+                if a == a2:
+                    row[a] = (n + q) if ph == 0 else None
+                elif a == a1:
+                    row[a] = (2 * n + q) if ph == 1 else None
+                else:
+                    t = L.trans[q][a]
+                    row[a] = None if t is None else ph * n + t
+            trans.append(row)
+    return rx.DFA(alpha, trans, L.start, {2 * n + q for q in L.acc}).trim()
+
+
 def check(ctx, rep, cl, prefix, groups, parts_by_pat):
     try:
         with open(REF) as fh:
@@ -80,6 +129,7 @@ def check(ctx, rep, cl, prefix, groups, parts_by_pat):
     try:
         ptree, _ = rx.parse(prefix, 0)
         rptree, _ = rx.parse(ref["prefix"], 0)
+        ptree, rptree = collapse_ws(ptree), collapse_ws(rptree)
     except RxError as e:
         rep.fail(cl + ".reference", "allowed prefix", "cannot parse: %s" % e, LOC)
         return
@@ -137,6 +187,41 @@ def check(ctx, rep, cl, prefix, groups, parts_by_pat):
         if ok:
             n_ok += 1
             pos = found
+            cpat = cur[found][0]
+            if idx is not None and cpat.text != text:
+                # the same line form, re-spelled: what is REPLACED must not grow - text the old pattern left in place after (or before) the secret
+                # would be swallowed into the pseudonym (a (\S+) turned into (.+) takes the rest of the line)
+                try:
+                    rp = pwdtable.Pat(text, idx, 0, 0, "ref")
+                    rp.tree, rp.info = rx.parse(ref["prefix"] + text, 0)
+                    rp.tree = collapse_ws(rx.drop_vacuous(rp.tree))
+                    okr, _, rparts = secret_struct.partition(rp, rptree)
+                    cp = pwdtable.Pat(cpat.text, cpat.idx, 0, 0, "cur")
+                    cp.tree, cp.info = rx.parse(prefix + cpat.text, 0)
+                    cp.tree = collapse_ws(rx.drop_vacuous(cp.tree))
+                    okc, _, cparts = secret_struct.partition(cp, ptree)
+                    if okr and okc:
+                        # on the lines the reference pattern handles, the edited pattern may mark only what the reference could mark
+                        # (an optional element widened in front of the secret shifts WHICH token is replaced)
+                        cnode = cur[found][1]
+                        unmarked = rx.cat(*[_replace_looks(x, marks) for x in rparts["lookbehind"]], _replace_looks(rparts["prefix"], marks) if rparts["prefix"] is not None else rx.EPS,
+                                          _replace_looks(rparts["secret"], marks), *[_replace_looks(x, marks) for x in rparts["trailing"]])
+                        if cnode is not None:
+                            rest = rx.star(rx.ANYCHAR)  # the pattern is searched for: whatever follows the match is part of the line
+                            alpha2, (MR, MC, LU) = rx.languages([rx.cat(rnode, rest), rx.cat(cnode, rest), rx.cat(unmarked, rest)], extra_sets=[CharSet.of(M1), CharSet.of(M2)])
+                            shifted = (MC & _all_markings(LU, alpha2)) - MR
+                            wit2 = None if shifted.is_empty() else (shifted.shortest(1) or ["?"])[0].replace(M1, "‹secret›").replace(M2, "‹›")
+                            rep.ob(cl + ".same-secret-on-known-lines", ident, shifted.is_empty(),
+                                   "on a line the reference pattern %r handles, %r can take a different part for the secret: %r (‹›prefix‹secret›value): the token the reference replaced may now be left in place" % (ident, cpat.ident, wit2),
+                                   LOC, witness=wit2, key=cl + ".same-secret-on-known-lines|" + ident)
+                        alpha, (GR, GC) = rx.languages([_replace_looks(rparts["secret"], marks), _replace_looks(cparts["secret"], marks)])
+                        grow = GC - GR
+                        wit = None if grow.is_empty() else (grow.shortest(1) or ["?"])[0]
+                        rep.ob(cl + ".secret-group-not-wider", ident, grow.is_empty(),
+                               "the group that is replaced in %r now also matches %r, which the reference pattern %r left in place: text after the secret would be swallowed into the pseudonym" % (cpat.ident, wit, ident),
+                               LOC, witness=wit, key=cl + ".secret-group-not-wider|" + ident)
+                except RxError:
+                    pass
         rep.ob(cl + ".recognised-forms-not-shrunk", ident, ok,
                "reference line form %r (group %d, index %s) is no longer fully handled by any pattern in order; e.g. closest pattern %r misses the form %r" % (ident, gi, idx, witness[0] if witness else None, witness[1] if witness else None), LOC,
                witness=witness[1] if witness else None, key="%s.recognised-forms-not-shrunk|%s" % (cl, ident))
